@@ -420,37 +420,46 @@ func zzvCheckExact(id string, d *BasicDirectory) {
 }
 
 var zzvPoolNames = []string{"a", zzvName(90, 'b'), zzvName(130, 'c')}
-var zzvPoolCids = []int{0, 1, 6}
+var zzvPoolCids = []int{0, 6}
 
-// HarnessC17Track: a basic directory in block-size estimation mode, created with symbolic stat, then K operations
-// (add / replace / remove over a 3-name pool, 3 CID length classes, symbolic Tsize < 2^21); after every operation
-// the tracked estimate equals the length of the serialized node; finally the node is re-loaded
-// (NewBasicDirectoryFromNode, as NewDirectoryFromNode does) and the freshly computed estimate must be exact too.
+// HarnessC17Track: a basic directory in block-size estimation mode, created without stat / with a full symbolic
+// stat (permission bits, seconds, nanoseconds; one varint class each - the classes are HarnessC17DataField's job) /
+// (HarnessC17Reload covers every mode/mtime class for the reload step); then K operations over a name pool: add or replace (2 CID length
+// classes, symbolic Tsize < 2^14), remove (present or missing), and an add that the node rejects (Tsize > MaxInt64
+// or an undefined CID). After every operation - successful or not - the tracked estimate equals the length of the
+// serialized node; finally the node is re-loaded (NewBasicDirectoryFromNode, as NewDirectoryFromNode does) and the
+// freshly computed estimate must be exact too.
 func HarnessC17Track() {
 	ctx := context.Background()
 	var mode os.FileMode
 	var mtime time.Time
-	if verifrt.NondetBool("withstat") {
-		mode = os.FileMode(verifrt.NondetU32("mode"))
-		mtime = zzvMtime()
+	switch verifrt.NondetRange("stat", 0, 1) {
+	case 1:
+		mode = os.FileMode(verifrt.NondetU32("mode")&0x1FF | 0x80)
+		s := verifrt.NondetI64("s")
+		verifrt.Assume(s >= 1<<28 && s < 1<<35)
+		ns := zzvNanos("ns")
+		verifrt.Assume(ns > 0)
+		mtime = time.Unix(s, ns)
 	}
 	d, err := NewBasicDirectory(nil, zzvBlockMode(), WithStat(mode, mtime))
 	verifrt.Assert("C17.track-new-ok", err == nil)
 	zzvCheckExact("C17.track-exact-empty", d)
 	k := verifrt.Param("K", 2)
+	names := zzvPoolNames[:verifrt.Param("NAMES", 2)]
 	model := map[string]bool{}
 	for i := 0; i < k; i++ {
-		ni := verifrt.NondetRange("name", 0, len(zzvPoolNames)-1)
-		name := zzvPoolNames[ni]
-		if verifrt.NondetRange("op", 0, 1) == 0 {
+		name := names[verifrt.NondetRange("name", 0, len(names)-1)]
+		switch verifrt.NondetRange("op", 0, 2) {
+		case 0:
 			ci := verifrt.NondetRange("cid", 0, len(zzvPoolCids)-1)
 			ts := verifrt.NondetU64("tsize")
-			verifrt.Assume(ts < 1<<21)
+			verifrt.Assume(ts < 1<<14)
 			err := d.AddChild(ctx, name, &zzvChild{c: zzvCid(zzvPoolCids[ci], byte(i+1)), size: ts})
 			verifrt.Assert("C17.track-add-ok", err == nil)
 			model[name] = true
 			zzvCheckExact("C17.track-exact-after-add", d)
-		} else {
+		case 1:
 			err := d.RemoveChild(ctx, name)
 			if model[name] {
 				verifrt.Assert("C17.track-remove-ok", err == nil)
@@ -459,8 +468,22 @@ func HarnessC17Track() {
 			}
 			delete(model, name)
 			zzvCheckExact("C17.track-exact-after-remove", d)
+		case 2:
+			child := &zzvChild{c: zzvCid(1, 9), size: verifrt.NondetU64("badsize")}
+			if verifrt.NondetBool("undef") {
+				child.c = cid.Undef
+			} else {
+				verifrt.Assume(child.size > 1<<63-1)
+			}
+			err := d.AddChild(ctx, name, child)
+			verifrt.Assert("C17.track-bad-add-rejected", err != nil)
+			// whatever the failed call did to the entry list, the estimate must describe the node as it is now
+			zzvCheckExact("C17.track-exact-after-rejected-add", d)
+			if _, err := d.node.GetNodeLink(name); err != nil {
+				delete(model, name)
+			}
 		}
-		verifrt.Assert("C17.track-total-links", d.totalLinks == len(model))
+		verifrt.Assert("C17.track-total-links", d.totalLinks == len(d.node.Links()))
 	}
 	// reload from the node
 	saved := HAMTSizeEstimation
@@ -468,5 +491,33 @@ func HarnessC17Track() {
 	d2 := NewBasicDirectoryFromNode(nil, d.node.Copy().(*mdag.ProtoNode))
 	HAMTSizeEstimation = saved
 	zzvCheckExact("C17.track-exact-after-reload", d2)
+	verifrt.Reach("end")
+}
+
+// HarnessC17Reload: a block-mode directory created with any stat (symbolic 32-bit mode, symbolic or unset mtime) and
+// zero or one entry is serialized and loaded again the way NewDirectoryFromNode does it; the estimate computed on
+// load must equal the length of the serialized node. The case "mode has type bits but no permission bits"
+// (e.g. os.ModeDir for a d--------- directory: the Mode field is written with value 0) has its own assertion id.
+func HarnessC17Reload() {
+	mode := os.FileMode(verifrt.NondetU32("mode"))
+	mtime := zzvMtime()
+	d, err := NewBasicDirectory(nil, zzvBlockMode(), WithStat(mode, mtime))
+	verifrt.Assert("C17.reload-new-ok", err == nil)
+	zzvCheckExact("C17.reload-exact-before", d)
+	if verifrt.NondetBool("withlink") {
+		ts := verifrt.NondetU64("tsize")
+		verifrt.Assume(ts < 1<<14)
+		err := d.AddChild(context.Background(), "a", &zzvChild{c: zzvCid(1, 1), size: ts})
+		verifrt.Assert("C17.reload-add-ok", err == nil)
+	}
+	saved := HAMTSizeEstimation
+	HAMTSizeEstimation = SizeEstimationBlock
+	d2 := NewBasicDirectoryFromNode(nil, d.node.Copy().(*mdag.ProtoNode))
+	HAMTSizeEstimation = saved
+	if mode != 0 && mode&(os.ModePerm|os.ModeSetuid|os.ModeSetgid|os.ModeSticky) == 0 {
+		zzvCheckExact("C17.reload-exact-permless-mode", d2)
+	} else {
+		zzvCheckExact("C17.reload-exact", d2)
+	}
 	verifrt.Reach("end")
 }
